@@ -15,7 +15,9 @@ Oracles (all element-wise for arrays)
   identity    heating == M_host (n dUdM - spin dUdO), |residual| <= 1e-10 * S, S = G M^2 R^5/a^6 *
               sum_modes |u K| (|(l-2p+q) n| + |m spin|) from the harness's own mode list (accounts for
               cancellation).  Measured worst 3e-16 S.  Also tidal_torque == M_host dUdO (4 ulp).
-  all_zero    e = 0, obliquity None or 0, synchronous => heating, dUdM, dUdw, dUdO are exactly 0.
+  all_zero    e = 0, obliquity None or 0, synchronous => heating, dUdM, dUdw, dUdO are exactly 0 (obliquity None) or below
+              1e-20 G M^2 R^5 n/a^6 max|Im k_l| (obliquity passed as 0.0: two l = 5 inclination expressions evaluate a vanishing
+              bracket to 5e-17 at I = 0, F^2 ~ 1e-29; a mode that fails to cancel would give >= 1e-3 of that unit).
   closed_form synchronous, truncation 2, l_max 2, obliquity None or 0 =>
               heating == (21/2)(-Im k2) G M^2 R^5 n e^2 / a^6 with the closed-form k2(n) and - when every frequency
               signature is at |w| = n (spin_frequency=None, no obliquity argument), so that the returned per-degree
@@ -28,7 +30,7 @@ Oracles (all element-wise for arrays)
               coefficients, own closed-form Love number, rheology .py_func); heating, dUdM, dUdw, dUdO must agree to
               1e-10 * sum|mode terms| each (measured worst 2e-15).  A wrong coefficient / lost term moves them
               by >= 1e-3 of the scale.
-  ctl_default the package-default CTL parameters (TidalPy.config tides.models.global_approx: static_k2, fixed_q,
+  ctl_default the package-default CTL parameters (TidalPy.defaultc tides.models.global_approx: static_k2, fixed_q,
               fixed_dt), through quick_tidal_dissipation and through a `simple_tidal` world with use_ctl=True:
               CTL is passive by construction, so heating >= 0 (known finding KF-C10-ctl-default-dt: it is not).
 
@@ -74,7 +76,7 @@ LEVEL_TEXT = ('Generated-input exploration over spin state, e, obliquity, l_max,
 LEVEL_NOTE = ('The reference sum reuses the repository F^2_lmp / G^2_lpq tables (un-jitted .py_func, C07/C09 check those) and the '
               'rheology functions as inputs; universal coefficients, frequencies, signs, the homogeneous Love number and the '
               'summation are independent. Validity range of a truncation is defined operationally by the harness sums (10 % of e^20).')
-CASES = {'quick': 4000, 'thorough': 400000}
+CASES = {'quick': 4000, 'thorough': 100000}
 SHARDS = {'quick': 16, 'thorough': 16}
 TOL = 1.0e-10
 SIGN_TOL = 1.0e-12
@@ -146,8 +148,11 @@ def _full(v, k):
 
 
 def _ctl_defaults():
-    import TidalPy
-    cfg = TidalPy.config['tides']['models']['global_approx']
+    """(static_k2, fixed_q, fixed_dt) of the package defaults: parsed from TidalPy.defaultc.default_config_str, the source
+    from which the per-user TidalPy_Configs.toml (what TidalPy.config holds) is written on first use."""
+    import toml
+    from TidalPy.defaultc import default_config_str
+    cfg = toml.loads(default_config_str)['tides']['models']['global_approx']
     return float(cfg['static_k2']), float(cfg['fixed_q']), float(cfg['fixed_dt'])
 
 
@@ -230,8 +235,14 @@ def evaluate(case):
     # (2) circular, zero-obliquity, synchronous: everything vanishes exactly
     if sync and obl_zero and bool(np.all(su.e == 0.0)):
         c.label('clause:all_zero')
-        c.check(bool(np.all(H == 0.0) and np.all(dM == 0.0) and np.all(dw == 0.0) and np.all(dO == 0.0)),
-                {'clause': 'all_zero'}, '%s: H=%r dUdM=%r dUdw=%r dUdO=%r' % (ctx, H, dM, dw, dO))
+        # obliquity=None: the I = 0 tables are literal constants and the result must be exactly 0.  obliquity=0.0 goes
+        # through the general F^2_lmp(I) expressions, some of which (l = 5: (1,1), (3,2)) evaluate a vanishing bracket
+        # to ~5e-17 at I = 0, i.e. F^2 ~ 1e-29 instead of 0: allowed up to 1e-20 of the natural unit
+        # G M^2 R^5 n / a^6 * max|Im k_l|.
+        unit = 0.0 if b.obl is None else 1.0e-20 * ms.unit * ms.k_max
+        c.check(bool(np.all(np.abs(H) <= unit * np.abs(n)) and np.all(np.abs(dM) <= unit / M) and np.all(np.abs(dw) <= unit / M)
+                     and np.all(np.abs(dO) <= unit / M)),
+                {'clause': 'all_zero'}, '%s: H=%r dUdM=%r dUdw=%r dUdO=%r (allowed %r W)' % (ctx, H, dM, dw, dO, unit * np.abs(n)))
 
     # (3) classical synchronous e^2 limit
     if sync and obl_zero and su.trunc == 2 and su.l_max == 2:
@@ -287,8 +298,11 @@ def _oop_ctl_default(c, su, b):
             _oop_cache['host'] = build_world('vhost', {'name': 'vhost', 'type': 'simple_tidal', 'radius': 7.0e7, 'mass': 1.9e27,
                                                        'tides_on': False, 'force_spin_sync': False})
         host = _oop_cache['host']
+        k2, q, dt0 = _ctl_defaults()
         sat = build_world('vsat', {'name': 'vsat', 'type': 'simple_tidal', 'radius': 1.8e6, 'mass': 8.9e22, 'tides_on': True,
-                                   'force_spin_sync': True, 'tides': {'model': 'global_approx', 'use_ctl': True}})
+                                   'force_spin_sync': True,
+                                   'tides': {'model': 'global_approx', 'use_ctl': True, 'static_k2': k2, 'fixed_q': q,
+                                             'fixed_dt': dt0}})
         orbit = PhysicsOrbit(star=None, tidal_host=host, tidal_bodies=sat, make_copies=False)
         orbit.set_state(sat, orbital_period=1.0 + 20.0 * float(su.e[0]), eccentricity=float(max(su.e[0], 0.01)))
         heat = sat.tides.tidal_heating_global
